@@ -369,6 +369,12 @@ def notifyNew (k : Key) (b : Bundle) (n : Node) : Node :=
     | none => n
     | some p => modRt k (fun r => { r with sentD := r.sentD ++ [p] }) n
 
+/-- `routing/epidemic/destination` names an endpoint of this node. -/
+def epiLocal (c : Cfg) (it : Item) : Bool :=
+  match it.rt.epiDst with
+  | some e => hasEndpoint c e
+  | none => false
+
 /-- `DispatchingAllowed`. Epidemic: allowed iff the bundle is for this node or some connected sender
 is not in the sent list; when it says no it marks the item pending itself. All others: always. -/
 def dispatchingAllowed (env : Env) (d : Desc) (n : Node) : Bool × Node :=
@@ -377,7 +383,7 @@ def dispatchingAllowed (env : Env) (d : Desc) (n : Node) : Bool × Node :=
     match n.store.get d.key with
     | none => (true, n)
     | some it =>
-      if (match it.rt.epiDst with | some e => hasEndpoint n.cfg e | none => false) then (true, n)
+      if epiLocal n.cfg it then (true, n)
       else if (filterCLAs it.rt.sentE (senders env n d.key)).1.isEmpty
       then (false, modItem d.key (fun it => { it with pending := true }) n)
       else (true, n)
